@@ -133,6 +133,10 @@ pub struct Process {
     pub result: Option<Result<Value, crate::error::Error>>,
     pub select_state: Option<SelectState>,
     pub awaiting: HashMap<ProcessId, Option<Value>>,
+    /// The awaited processes whose state (completed or not) has not been reported yet. The select
+    /// does not evaluate its sources before this is empty: a process source is only known not to
+    /// be ready once its state has been reported.
+    pub unreported_awaits: Vec<ProcessId>,
 }
 
 impl Process {
@@ -146,6 +150,7 @@ impl Process {
             result: None,
             select_state: None,
             awaiting: HashMap::new(),
+            unreported_awaits: Vec::new(),
         }
     }
 }
